@@ -26,6 +26,8 @@ type WebsocketTransport struct {
 	decoder *xml.Decoder
 	wsConn  *websocket.Conn
 	queue   chan []byte
+	// readBuf holds what is left of the last frame when it did not fit into the buffer given to Read
+	readBuf []byte
 	logFile io.Writer
 
 	closeCtx  context.Context
@@ -134,6 +136,12 @@ func (t WebsocketTransport) Ping() error {
 }
 
 func (t *WebsocketTransport) Read(p []byte) (int, error) {
+	// Serve the rest of the previous frame first
+	if len(t.readBuf) > 0 {
+		n := copy(p, t.readBuf)
+		t.readBuf = t.readBuf[n:]
+		return n, nil
+	}
 	select {
 	case <-t.closeCtx.Done():
 		return 0, t.closeCtx.Err()
@@ -141,8 +149,10 @@ func (t *WebsocketTransport) Read(p []byte) (int, error) {
 		if t.logFile != nil && len(data) > 0 {
 			_, _ = fmt.Fprintf(t.logFile, "RECV:\n%s\n\n", data)
 		}
-		copy(p, data)
-		return len(data), nil
+		// Never report more than was copied: keep what does not fit for the next call
+		n := copy(p, data)
+		t.readBuf = data[n:]
+		return n, nil
 	}
 }
 
